@@ -201,6 +201,17 @@ func (e Env) NilMask(a, b, c interface{}) int {
 	return m
 }
 
+// MkElem returns a struct that holds a slice (not usable as a map key); FirstOf may return nil; CountAny takes
+// []interface{} (what an array literal is).
+func (e Env) MkElem(v int) Elem { return Elem{V: v, Name: "mk", Tags: []string{"t", "u"}} }
+func (e Env) FirstOf(a, b interface{}) interface{} {
+	if a != nil {
+		return a
+	}
+	return b
+}
+func (e Env) CountAny(xs []interface{}) int { return len(xs) }
+
 // Tuple also has the fast-call shape and hands its argument slice back to the caller.
 func (e Env) Tuple(xs ...interface{}) interface{} { return xs }
 
